@@ -405,6 +405,7 @@ func TestArcs(t *testing.T) {
 // The witness of the zero-radius defect found by reading (D1), and the four
 // flag combinations on one fixed ellipse.
 func TestArcTable(t *testing.T) {
+	harness.OnlyFirstShard(t)
 	c := Case{ViewBox: [4]ops.F32{0, 0, 10, 10}, Rect: [4]int{0, 0, 100, 200}, Start: [2]ops.F32{1, 1}, RX: 0, RY: 3, To: [2]ops.F32{5, 5}, Family: "zero-radius"}
 	subArc.Run(t, c)
 	for _, la := range []bool{false, true} {
